@@ -856,6 +856,34 @@ def run(run):
     ob_ternary_operands(run, mir, rp)
     ob_interpolation(run, mir, rp, "syntax")
     ob_printer_edges(run, mir, rp)
+    try:
+        # what the lexer lets through inside an interpolated string ends up verbatim in an f-string: braces must balance
+        import lexstep
+
+        def brace_replay(what):
+            def f(model):
+                bad = []
+                for src in ("def x := 1\nprint(\"{x} }\")\n", "def x := 1\nprint(\"} {x}\")\n", "def x := 1\nprint(\"{x}}\")\n", "def x := 1\nprint(\"{x} and {x}\")\n", "print(\"plain\")\n"):
+                    st_, out = rp.transpile(src)
+                    if st_ != "OK":
+                        continue
+                    try:
+                        compile(out, "<emitted>", "exec")
+                    except SyntaxError as e:
+                        bad.append(f"{src!r} is emitted as {out.strip()[:100]!r}, which Python refuses: {e}")
+                if bad:
+                    return {"reproduced": True, "role": f"{what}:stray-closing-brace", "detail": bad[0]}
+                return {"reproduced": False, "detail": "5 strings with and without stray braces: rejected or valid Python"}
+            return f
+        lexstep.obligations(run, mir, rp, brace_replay, want=("braces",))
+    except Unsupported as e:
+        run.ob("string-brace-counter-encoding", "E2", "kernel is encodable").inconclusive(f"unsupported construct: {e}")
+    try:
+        # a generator flag that leaks into a branch (a pending assignment applied twice) is a syntax error: the structure of the control-flow arms
+        from props import C01
+        C01.ob_structure(run, mir, rp, only_fns=("convert_cntrl_flow",))
+    except Unsupported as e:
+        run.ob("structure-convert-cntrl-flow-encoding", "E2", "kernel is encodable").inconclusive(f"unsupported construct: {e}")
     rp.close()
     # an operand that needs delimiting and does not get it can be a syntax error too (`a == not b`): the C10 machinery with
     # "Python refuses the text" as the only failure
